@@ -380,10 +380,16 @@ func (g *wgen) sessionCreate() wcmd {
 				isLive = true
 			}
 		}
-		if !isLive || g.chance(10) {
+		if !isLive {
 			break
 		}
 		s.ID = g.pick(uni.sessIDs)
+	}
+	for _, l := range live {
+		if l == s.ID {
+			// the endpoint always picks an unused id (Session.Apply loops until SessionGet finds none)
+			return g.sessionDestroy()
+		}
 	}
 	if g.chance(3) {
 		s.Behavior = structs.SessionKeysDelete
@@ -641,7 +647,11 @@ func (g *wgen) aclMethodOrRule() wcmd {
 		return g.mk("acl:rule-delete", "acl binding-rule delete "+id[len(id)-2:],
 			mustEncode(structs.ACLBindingRuleDeleteRequestType, &structs.ACLBindingRuleBatchDeleteRequest{BindingRuleIDs: []string{id}}))
 	}
-	r := &structs.ACLBindingRule{ID: id, Description: g.pick([]string{"", "br"}), AuthMethod: g.pick(uni.methods), Selector: "serviceaccount.namespace==default",
+	meth := g.pick(uni.methods)
+	if _, ms, _ := g.st().ACLAuthMethodList(nil, structs.DefaultEnterpriseMetaInDefaultPartition()); len(ms) > 0 && g.rng.Intn(5) > 0 {
+		meth = ms[g.rng.Intn(len(ms))].Name
+	}
+	r := &structs.ACLBindingRule{ID: id, Description: g.pick([]string{"", "br"}), AuthMethod: meth, Selector: "serviceaccount.namespace==default",
 		BindType: structs.BindingRuleBindTypeService, BindName: "${serviceaccount.name}"}
 	return g.mk("acl:rule-set", fmt.Sprintf("acl binding-rule set %s method=%s", id[len(id)-2:], r.AuthMethod),
 		mustEncode(structs.ACLBindingRuleSetRequestType, &structs.ACLBindingRuleBatchSetRequest{BindingRules: structs.ACLBindingRules{r}}))
@@ -925,7 +935,11 @@ func (g *wgen) peering() wcmd {
 	}
 	_, cur, _ := g.st().PeeringRead(nil, state.Query{Value: name})
 	now := timestamppb.New(baseTime.Add(time.Duration(g.idx) * time.Second))
-	switch g.rng.Intn(9) {
+	pk := g.rng.Intn(9)
+	if cur != nil && cur.State != pbpeering.PeeringState_DELETING && g.chance(3) {
+		pk = 5
+	}
+	switch pk {
 	case 0, 1, 2:
 		p := &pbpeering.Peering{ID: id, Name: name, State: pbpeering.PeeringState_PENDING}
 		if cur != nil {
